@@ -259,6 +259,13 @@ def check_property(prop, cfg, tier="quick", seed=0):
         rc = 2
     for t in tool_errors: out_lines.append("TOOL-ERROR: " + t)
     for t in undecided: out_lines.append("UNDECIDED: " + t)
+    # checks decided by executing the real code (assumption validations, exhaustive enumerations, bounded fallbacks, history replays) are reported
+    # separately: they are not proof obligations and are never counted as discharged ones
+    executed = {o: i for o, i in obligations.items() if i.get("kind") == "execution"}
+    for o in executed:
+        del obligations[o]
+    discharged_exec = set(o for o in executed if o in discharged)
+    discharged -= set(executed)
     n_obl = len(obligations)
     if rc == 0 and n_obl == 0:
         out_lines.append("TOOL-ERROR: no obligation generated for %s" % prop); rc = 2
@@ -277,7 +284,8 @@ def check_property(prop, cfg, tier="quick", seed=0):
         "vacuity_canaries": {"planted": canary_total, "reported": canary_seen},
         "obligation_ids": sorted(obligations), "failed_obligations": sorted(set(obligations) - discharged),
         "known_findings": [k.get("what") for k, _ in knowns],
-        "explanation": cfg.get("explanation", ""),
+        "executed_checks": [{"id": o, "what": i.get("clause"), "held": o in discharged_exec} for o, i in sorted(executed.items())],
+        "explanation": cfg.get("explanation") or ("contract-based deductive verification of mechanically extracted real functions; this run is reported at level 'other' because not every obligation was discharged or the run was undecided: see failed_obligations, tool_errors, undecided"),
         "evaluations": max(n_obl, 1), "distinct_nontrivial": max(len(discharged), 2) if n_obl >= 2 else 2, "rule": "one case = one contract clause (obligation id) checked by the verifier for all inputs",
     }
     cov.update(extra_cov)
@@ -286,6 +294,7 @@ def check_property(prop, cfg, tier="quick", seed=0):
           "violations": len(seen_v), "tool_errors": tool_errors, "undecided": undecided, "exit_code": rc}
     json.dump(ev, open(ev_path, "w"), indent=1)
     for l in out_lines: print(l)
-    print("%s %s: %d/%d obligations discharged, %d violation(s), %d known finding(s), %.1fs [%s]" % (
-        prop, tier, len(discharged), n_obl, len(seen_v), len(seen_k), time.time() - t0, "exit %d" % rc))
+    print("%s %s: %d/%d obligations discharged%s, %d violation(s), %d known finding(s), %.1fs [%s]" % (
+        prop, tier, len(discharged), n_obl, (" + %d/%d executed checks held" % (len(discharged_exec), len(executed))) if executed else "",
+        len(seen_v), len(seen_k), time.time() - t0, "exit %d" % rc))
     return rc
